@@ -25,6 +25,9 @@ Naming: one table entry per instruction page and operand form, "<mnemonic>_<form
 as mov_reg / mov_rsr with (stype, samt) = DecodeImmShift resp. stype + Rs (manual: "MOV (shifted register)"
 lists LSL/LSR/ASR/ROR/RRX as equivalent spellings).  PUSH / POP are the STMDB SP! / LDMIA SP! encodings with
 any non-empty list (for one register the manual's preferred name is STMDB / LDMIA; same operation).
+ADR and the literal loads are second spellings of ADD/SUB (immediate) resp. LDR* (immediate) with Rn = PC (the
+manual's "SEE ADR" / "SEE LDR (literal)"): the table decodes them as add_imm / sub_imm / ldr*_imm with rn = 15,
+Decoded.is_("adr") / .fields("ldr_lit") give the alias view (offset relative to Align(PC, 4) = pc + 8).
 
 decode(word)  works on plain ints, symx SymInt and raw z3 32-bit vectors: a table of
     (mask, match, name, format, extra condition); "which instruction is this" is one boolean per entry,
@@ -247,13 +250,6 @@ def _mov(fmt):
     return f
 
 
-def _f_adr(D, w):
-    imm, rot, imm8 = _expand_imm(D, w)
-    add = D.bits(w, 23, 23) == 1
-    return dict(rd=D.bits(w, 15, 12), add=add, uimm=imm, imm=D.ite(add, imm, (0 - imm) if D is not Z3 else -imm),
-                unpred=False)
-
-
 def _f_mov16(D, w):
     rd = D.bits(w, 15, 12)
     return dict(rd=rd, imm=(D.bits(w, 19, 16) << 12) | D.bits(w, 11, 0), unpred=rd == 15)
@@ -298,21 +294,13 @@ def _f_ls_imm(load, byte):
     def f(D, w):
         index, add, wback = _puw(D, w)
         rn, rt, imm = D.bits(w, 19, 16), D.bits(w, 15, 12), D.bits(w, 11, 0)
-        if load:
-            up = D.and_(wback, rn == rt)
+        if load:    # Rn = PC is the literal form (encoding: P = 1, W = 0)
+            up = D.and_(wback, D.or_(rn == 15, rn == rt))
         else:
             up = D.and_(wback, D.or_(rn == 15, rn == rt))
         if byte:
             up = D.or_(up, rt == 15)
         return dict(rt=rt, rn=rn, uimm=imm, imm=_signed(D, add, imm), index=index, add=add, wback=wback, unpred=up)
-    return f
-
-
-def _f_ls_lit(byte_or_half):
-    def f(D, w):
-        add = D.bits(w, 23, 23) == 1
-        rt, imm = D.bits(w, 15, 12), D.bits(w, 11, 0)
-        return dict(rt=rt, uimm=imm, imm=_signed(D, add, imm), add=add, unpred=(rt == 15) if byte_or_half else False)
     return f
 
 
@@ -333,19 +321,9 @@ def _f_lsx_imm(load):       # halfword / signed byte, imm4H:imm4L
         index, add, wback = _puw(D, w)
         rn, rt = D.bits(w, 19, 16), D.bits(w, 15, 12)
         imm = (D.bits(w, 11, 8) << 4) | D.bits(w, 3, 0)
-        if load:
-            up = D.or_(rt == 15, D.and_(wback, rn == rt))
-        else:
-            up = D.or_(rt == 15, D.and_(wback, D.or_(rn == 15, rn == rt)))
+        up = D.or_(rt == 15, D.and_(wback, D.or_(rn == 15, rn == rt)))
         return dict(rt=rt, rn=rn, uimm=imm, imm=_signed(D, add, imm), index=index, add=add, wback=wback, unpred=up)
     return f
-
-
-def _f_lsx_lit(D, w):
-    add = D.bits(w, 23, 23) == 1
-    rt = D.bits(w, 15, 12)
-    imm = (D.bits(w, 11, 8) << 4) | D.bits(w, 3, 0)
-    return dict(rt=rt, uimm=imm, imm=_signed(D, add, imm), add=add, unpred=rt == 15)
 
 
 def _f_lsx_reg(D, w):
@@ -434,20 +412,8 @@ def _not_exc_return(D, f, w):   # "if Rd == '1111' && S == '1' then SEE SUBS PC,
     return D.not_(D.and_(f["rd"] == 15, f["S"] == 1))
 
 
-def _not_adr(D, f, w):          # ADD/SUB (immediate): "if Rn == '1111' && S == '0' then SEE ADR"
-    return D.and_(_not_exc_return(D, f, w), D.not_(D.and_(f["rn"] == 15, f["S"] == 0)))
-
-
-def _adr_op(D, f, w):           # bits 23:22 = 10 (ADD, encoding A1) or 01 (SUB, encoding A2)
-    return D.bits(w, 23, 23) + D.bits(w, 22, 22) == 1
-
-
 def _not_t(D, f, w):            # "if P == '0' && W == '1' then SEE LDRT / STRT ..."
     return D.not_(D.and_(D.bits(w, 24, 24) == 0, D.bits(w, 21, 21) == 1))
-
-
-def _not_t_not_lit(D, f, w):    # "if Rn == '1111' then SEE ... (literal)"
-    return D.and_(_not_t(D, f, w), D.not_(f["rn"] == 15))
 
 
 def _not_sp_wb(D, f, w):        # "if W == '1' && Rn == '1101' ... then SEE PUSH / POP"
@@ -475,12 +441,10 @@ for _n, _op in DP.items():
                   (0x0FEF0010, 0x00000000 | _op << 21, _n + "_reg", _mov(_f_dp_reg), _not_exc_return),
                   (0x0FEF0090, 0x00000010 | _op << 21, _n + "_rsr", _mov(_f_dp_rsr), None)]
     else:
-        TABLE += [(0x0FE00000, 0x02000000 | _op << 21, _n + "_imm", _f_dp_imm,
-                   _not_adr if _n in ("add", "sub") else _not_exc_return),
+        TABLE += [(0x0FE00000, 0x02000000 | _op << 21, _n + "_imm", _f_dp_imm, _not_exc_return),
                   (0x0FE00010, 0x00000000 | _op << 21, _n + "_reg", _f_dp_reg, _not_exc_return),
                   (0x0FE00090, 0x00000010 | _op << 21, _n + "_rsr", _f_dp_rsr, None)]
 TABLE += [
-    (0x0F3F0000, 0x020F0000, "adr", _f_adr, _adr_op),
     (0x0FF00000, 0x03000000, "movw", _f_mov16, None), (0x0FF00000, 0x03400000, "movt", _f_mov16, None),
     (0x0FE0F0F0, 0x00000090, "mul", _f_mul, None), (0x0FE000F0, 0x00200090, "mla", _f_mla, None),
     (0x0FF000F0, 0x00600090, "mls", _f_mla, None), (0x0FF000F0, 0x00400090, "umaal", _f_mull, None),
@@ -489,23 +453,18 @@ TABLE += [
     (0x0FF0F0F0, 0x0710F010, "sdiv", _f_div, None), (0x0FF0F0F0, 0x0730F010, "udiv", _f_div, None),
     # load/store word and unsigned byte (A5.3)
     (0x0E500000, 0x04000000, "str_imm", _f_ls_imm(False, False), _not_t),
-    (0x0E500000, 0x04100000, "ldr_imm", _f_ls_imm(True, False), _not_t_not_lit),
+    (0x0E500000, 0x04100000, "ldr_imm", _f_ls_imm(True, False), _not_t),
     (0x0E500000, 0x04400000, "strb_imm", _f_ls_imm(False, True), _not_t),
-    (0x0E500000, 0x04500000, "ldrb_imm", _f_ls_imm(True, True), _not_t_not_lit),
-    (0x0F7F0000, 0x051F0000, "ldr_lit", _f_ls_lit(False), None),
-    (0x0F7F0000, 0x055F0000, "ldrb_lit", _f_ls_lit(True), None),
+    (0x0E500000, 0x04500000, "ldrb_imm", _f_ls_imm(True, True), _not_t),
     (0x0E500010, 0x06000000, "str_reg", _f_ls_reg(False, False), _not_t),
     (0x0E500010, 0x06100000, "ldr_reg", _f_ls_reg(True, False), _not_t),
     (0x0E500010, 0x06400000, "strb_reg", _f_ls_reg(False, True), _not_t),
     (0x0E500010, 0x06500000, "ldrb_reg", _f_ls_reg(True, True), _not_t),
     # extra load/store (A5.2.8): halfword, signed byte, signed halfword
     (0x0E5000F0, 0x004000B0, "strh_imm", _f_lsx_imm(False), _not_t),
-    (0x0E5000F0, 0x005000B0, "ldrh_imm", _f_lsx_imm(True), _not_t_not_lit),
-    (0x0E5000F0, 0x005000D0, "ldrsb_imm", _f_lsx_imm(True), _not_t_not_lit),
-    (0x0E5000F0, 0x005000F0, "ldrsh_imm", _f_lsx_imm(True), _not_t_not_lit),
-    (0x0F7F00F0, 0x015F00B0, "ldrh_lit", _f_lsx_lit, None),
-    (0x0F7F00F0, 0x015F00D0, "ldrsb_lit", _f_lsx_lit, None),
-    (0x0F7F00F0, 0x015F00F0, "ldrsh_lit", _f_lsx_lit, None),
+    (0x0E5000F0, 0x005000B0, "ldrh_imm", _f_lsx_imm(True), _not_t),
+    (0x0E5000F0, 0x005000D0, "ldrsb_imm", _f_lsx_imm(True), _not_t),
+    (0x0E5000F0, 0x005000F0, "ldrsh_imm", _f_lsx_imm(True), _not_t),
     (0x0E500FF0, 0x000000B0, "strh_reg", _f_lsx_reg, _not_t),
     (0x0E500FF0, 0x001000B0, "ldrh_reg", _f_lsx_reg, _not_t),
     (0x0E500FF0, 0x001000D0, "ldrsb_reg", _f_lsx_reg, _not_t),
@@ -532,6 +491,8 @@ TABLE += [
     (0x0FB0F000, 0x0320F000, "msr_imm", _f_msr_imm, _msr_mask_nz),
 ]
 NAMES = [e[2] for e in TABLE]
+ALIASES = {"adr": None, "ldr_lit": "ldr_imm", "ldrb_lit": "ldrb_imm", "ldrh_lit": "ldrh_imm", "ldrsb_lit": "ldrsb_imm",
+           "ldrsh_lit": "ldrsh_imm"}
 SYSTEM = {"yield", "wfe", "wfi", "sev", "svc", "mrs", "msr_reg", "msr_imm"}
 
 
@@ -544,16 +505,40 @@ class Decoded:
         self.entries = entries          # [(cond, name, fields)]
 
     def is_(self, name):
+        if name in ALIASES:
+            return self._alias(name)[0]
         cs = [c for (c, n, f) in self.entries if n == name]
         if not cs:
             return False
         return cs[0]
 
     def fields(self, name):
+        if name in ALIASES:
+            return self._alias(name)[1]
         for (c, n, f) in self.entries:
             if n == name:
                 return f
         raise KeyError(name)
+
+    def _alias(self, name):
+        """second spelling of table entries (manual: "SEE ADR" / "SEE LDR (literal)"): -> (condition, fields)"""
+        D = self.D
+        if name == "adr":       # ADD / SUB (immediate) with Rn = PC, S = 0: Rd = Align(PC, 4) +/- imm32
+            got = [(c, n, f) for (c, n, f) in self.entries if n in ("add_imm", "sub_imm")]
+            if not got:
+                return False, {}
+            f = got[0][2]
+            isadd = D.or_(*[c for (c, n, _) in got if n == "add_imm"])
+            cond = D.and_(D.or_(*[c for (c, n, _) in got]), f["rn"] == 15, f["S"] == 0)
+            return cond, dict(rd=f["rd"], add=isadd, uimm=f["imm"], imm=_signed(D, isadd, f["imm"]), cond=f["cond"],
+                              unpred=False)
+        base = ALIASES[name]    # LDR* (literal): LDR* (immediate) with Rn = PC, P = 1, W = 0
+        got = [(c, f) for (c, n, f) in self.entries if n == base]
+        if not got:
+            return False, {}
+        c, f = got[0]
+        cond = D.and_(c, f["rn"] == 15, f["index"], D.not_(f["wback"]))
+        return cond, dict(rt=f["rt"], add=f["add"], uimm=f["uimm"], imm=f["imm"], cond=f["cond"], unpred=f["unpred"])
 
     @property
     def legal(self):
@@ -1046,10 +1031,6 @@ def _dp(name, kind):
     return sem
 
 
-def _adr(o, st, f):
-    return _Eff(writes=[(f["rd"], o.add(o.add(st.pc, o.val(8)), o.val(f["imm"])), True)])
-
-
 def _movw(o, st, f):
     return _Eff(writes=[(f["rd"], o.val(f["imm"]), True)])
 
@@ -1108,28 +1089,22 @@ def _store_bytes(o, addr, val, n, en=True):
 
 
 def _ls(load, size, signed, form):
-    """LDR/STR/LDRB/STRB/LDRH/STRH/LDRSB/LDRSH; form: imm / lit / reg (shifted) / xreg (plain register)"""
+    """LDR/STR/LDRB/STRB/LDRH/STRH/LDRSB/LDRSH; form: imm / reg (shifted) / xreg (plain register)"""
     def sem(o, st, f):
-        if form == "lit":
-            base = o.add(st.pc, o.val(8))       # Align(PC, 4); pc is word aligned in ARM state
-            addr = o.add(base, o.val(f["imm"]))
-            index, wback, oaddr = True, False, addr
+        base = read_reg(st, f["rn"])        # Rn = PC (literal form): Align(PC, 4) = pc + 8, pc is word aligned
+        if form == "imm":
+            oaddr = o.add(base, o.val(f["imm"]))
         else:
-            base = read_reg(st, f["rn"])
-            if form == "imm":
-                oaddr = o.add(base, o.val(f["imm"]))
-            else:
-                off = read_reg(st, f["rm"])
-                if form == "reg":
-                    off, _ = shift_c(o, off, o.val(f["stype"]), o.val(f["samt"]), st.c)
-                oaddr = o.ite(f["add"], o.add(base, off), o.sub(base, off))
-            index, wback = f["index"], f["wback"]
-            addr = o.ite(index, oaddr, base)
+            off = read_reg(st, f["rm"])
+            if form == "reg":
+                off, _ = shift_c(o, off, o.val(f["stype"]), o.val(f["samt"]), st.c)
+            oaddr = o.ite(f["add"], o.add(base, off), o.sub(base, off))
+        index, wback = f["index"], f["wback"]
+        addr = o.ite(index, oaddr, base)
         e = _Eff()
         if load:
             data = _load_bytes(o, st, addr, size, signed)
-            if form != "lit":
-                e.writes.append((f["rn"], oaddr, wback))
+            e.writes.append((f["rn"], oaddr, wback))
             e.writes.append((f["rt"], data, True))
             if size == 4:       # "if t == 15 then if address<1:0> == '00' then LoadWritePC(data) else UNPREDICTABLE"
                 e.unpred = o.and_(o.eq(o.val(f["rt"]), o.val(15)), o.not_(o.eq(o.band(addr, o.val(3)), o.val(0))))
@@ -1207,7 +1182,7 @@ def _system(o, st, f):
     return _Eff(system=True)
 
 
-SEM = {"adr": _adr, "movw": _movw, "movt": _movt, "mul": _mul, "mla": _mla, "mls": _mls,
+SEM = {"movw": _movw, "movt": _movt, "mul": _mul, "mla": _mla, "mls": _mls,
        "umull": _mull(False, None), "umlal": _mull(False, "acc"), "smull": _mull(True, None), "smlal": _mull(True, "acc"),
        "umaal": _mull(False, "umaal"), "sdiv": _div(True), "udiv": _div(False),
        "b": _b(False), "bl": _b(True), "bx": _bx(False), "blx_reg": _bx(True),
@@ -1220,14 +1195,10 @@ for _n, _ld, _sz, _sg in (("str", False, 4, False), ("ldr", True, 4, False), ("s
                           ("ldrb", True, 1, False)):
     SEM[_n + "_imm"] = _ls(_ld, _sz, _sg, "imm")
     SEM[_n + "_reg"] = _ls(_ld, _sz, _sg, "reg")
-    if _ld:
-        SEM[_n + "_lit"] = _ls(_ld, _sz, _sg, "lit")
 for _n, _ld, _sz, _sg in (("strh", False, 2, False), ("ldrh", True, 2, False), ("ldrsb", True, 1, True),
                           ("ldrsh", True, 2, True)):
     SEM[_n + "_imm"] = _ls(_ld, _sz, _sg, "imm")
     SEM[_n + "_reg"] = _ls(_ld, _sz, _sg, "xreg")
-    if _ld:
-        SEM[_n + "_lit"] = _ls(_ld, _sz, _sg, "lit")
 for _m in ("ia", "ib", "da", "db"):
     SEM["stm" + _m] = _block(False, _m)
     SEM["ldm" + _m] = _block(True, _m)
@@ -1478,13 +1449,17 @@ def selftest(repo=None, verbose=False):
     }
     known[0xE1F00000] = ("mvn_reg", dict(rd=0, rm=0, S=1))
     known[0xE1B0F00E] = (None, None)    # movs pc, lr: exception return, not modelled
-    for wv, (mn, opsd) in known.items():
-        d = decode(wv)
-        assert d.mnemonic == mn, (hex(wv), d.mnemonic, mn)
-        if mn:
+    def same(d, mn, exp, what):
+        if mn in ALIASES:
+            assert d.is_(mn), (what, d.mnemonic, mn)
+            got = d.fields(mn)
+        else:
+            assert d.mnemonic == mn, (what, d.mnemonic, mn)
             got = d.operands
-            for k, v in opsd.items():
-                assert got[k] == v, (hex(wv), k, got, opsd)
+        for k, v in (exp or {}).items():
+            assert got[k] == v, (what, k, got, exp)
+    for wv, (mn, opsd) in known.items():
+        same(decode(wv), mn, opsd, hex(wv))
         stats["known_words"] += 1
     # (C) the repo's assembler test vectors
     repo = repo or os.environ.get("PPCI_REPO", "/repo")
@@ -1515,10 +1490,7 @@ def selftest(repo=None, verbose=False):
                 stats["vectors_unmodelled"] += 1
                 continue
             mn, exp = e
-            assert d.mnemonic == mn, (tname, t, hex(wv), d.mnemonic, mn)
-            got = d.operands
-            for k, v in exp.items():
-                assert got[k] == v, (tname, t, k, got, exp)
+            same(d, mn, exp, (tname, t, hex(wv)))
             stats["vectors"] += 1
     # (D) hand-computed results of the manual's pseudocode
     def run(word, r=None, pc=0x1000, flags=(0, 0, 0, 0), mem=None):
